@@ -514,6 +514,22 @@ func driveC07(p *Pool, r *evid.Run) {
 		}
 		exploreAll(p, r, "C07", deep, 2, 0)
 	}
+	// one spawn site at a time arbitrarily slow (receive loop, differ, per-file writers; the reference sender's threads)
+	probe7 := exploreAll(p, r, "C07", []Scn{{Kind: "refsend", Src: "c7tiny", Dst: "c7diff", Cap: 64, Policy: "rr", SelectAlts: true}}, 0, 0)
+	if len(probe7) > 0 && probe7[0] != nil {
+		var slow []Scn
+		for _, role := range probe7[0].Roles {
+			for _, dst := range []string{"empty", "c7diff"} {
+				for _, cp := range []int{1, 64} {
+					slow = append(slow, Scn{Kind: "refsend", Src: "c7tiny", Dst: dst, Cap: cp, Policy: "slow:" + role, SelectAlts: true})
+				}
+			}
+			slow = append(slow, Scn{Kind: "refsend", Src: "c7tiny", Dst: "empty", Cap: 1, Policy: "slow:" + role, Variant: "seq", SelectAlts: true})
+		}
+		exploreAll(p, r, "C07", slow, 1, 0)
+		r.Add("scenarios", int64(len(slow)))
+		r.Set("slow_roles", probe7[0].Roles)
+	}
 	// 400 files: the STAT stream runs far ahead of the DATA answers (bound 0 around every policy)
 	var big []Scn
 	for _, pol := range []string{"run", "rund", "recv", "send", "rr"} {
